@@ -3339,7 +3339,7 @@ class x86_mn(x86_mn_base):
                 for y in mask_drcrsg:
                     if not modifs[y]:
                         continue
-                    for x in tmp_order[1]:
+                    for x in list(tmp_order[1]):
                         if not type(x) == int:
                             continue
                         if not x&mask_drcrsg[y]:
